@@ -88,6 +88,11 @@ func (g *Circle) containsPoint(p geometry.Point) bool {
 
 // Contains returns true if the circle contains other object
 func (g *Circle) Contains(obj Object) bool {
+	if obj.Empty() {
+		// nothing contains an empty object, and an empty member of a
+		// collection is within nothing
+		return false
+	}
 	switch other := obj.(type) {
 	case *Point:
 		return g.containsPoint(other.Center())
